@@ -3,9 +3,13 @@
 // Part (a)  cases 0 .. NOPS-1: the FULL finite decision table of constructor checks and factory
 //           refusals.  One case per catalogue operation; every triple (pair / single for unary
 //           operations) of forests from a pool of 13 kinds, all in one domain (sameDomain=1) and
-//           with at least one of them in a second domain (sameDomain=0).  Record
-//               pre <OP> <kindA> <kindB> <kindC> <sameDomain> -> ok | err <CODE>
-//           No result value is compared here.
+//           with at least one of them in a second domain.  Record
+//               pre <OP> <kindA> <kindB> <kindC> <domains> -> ok applied | err <CODE>
+//           <domains>: 1 = one domain; a = only the first operand lives elsewhere (second operand and
+//           result share a domain); 0 = any other split.  Every row is decided through the factory's
+//           `build()` and, when accepted, COMPUTED (`apply`).  No result value is compared here.
+// Case 99   reproducers of known findings that are still in the library (one forked child each; see
+//           knownFindingProbes).
 // Part (b)  cases 100 ..: run-time errors raised deep inside an operation and scripted misuse of
 //           the non-operation API; all held edges are re-read afterwards, the forests are audited
 //           and a follow-up operation in the same forests is compared with the oracle.
@@ -105,18 +109,18 @@ struct PF {
     Kind k;
     forest* F = nullptr;
     std::string tok;
-    dd_edge A, B;      // A: general operand; B: "safe divisor" (finite, non-zero everywhere)
+    dd_edge A, B, C;   // A: general operand; B: "safe divisor" (finite, non-zero everywhere);
+                       // C: a second general operand, for the set operations (no value-dependent error there;
+                       //    two non-constant operands reach the terminal cases above level 0, former finding F5)
 };
 
 // a table that is finite and non-zero everywhere (so that no value-dependent error can occur)
-bool PROBE = false;
 std::vector<Val> safeTable(Rng& r, const Dom& D, const Kind& k) {
     size_t n = D.card(k.rel);
     std::vector<Val> t(n);
     for (size_t i = 0; i < n; i++) {
         switch (k.rt) {
-            // (probes use a non-constant Boolean operand: finding F5 needs one)
-            case range_type::BOOLEAN: t[i] = Val::boolean(PROBE ? r.chance(2, 3) : true); break;
+            case range_type::BOOLEAN: t[i] = Val::boolean(true); break;
             case range_type::INTEGER: t[i] = Val::integer(r.range(1, 3)); break;
             default: t[i] = Val::real(double(r.range(1, 2))); break;
         }
@@ -148,17 +152,21 @@ void buildPool(Rng& r, Dom& D, std::vector<PF>& pool) {
         p.tok = kindTok(p.k);
         p.A.attach(p.F);
         p.B.attach(p.F);
+        p.C.attach(p.F);
         if (p.k.el == edge_labeling::INDEX_SET) {
             // a genuine index set: converted from a Boolean set held in pool[0]
-            dd_edge s(pool[0].F), s2(pool[0].F);
+            dd_edge s(pool[0].F), s2(pool[0].F), s3(pool[0].F);
             Kind kb = pool[0].k;
             buildFromTable(D, pool[0].F, kb, generalTable(r, D, kb), s);
             buildFromTable(D, pool[0].F, kb, safeTable(r, D, kb), s2);
+            buildFromTable(D, pool[0].F, kb, generalTable(r, D, kb), s3);
             apply(CONVERT_TO_INDEX_SET, s, p.A);
             apply(CONVERT_TO_INDEX_SET, s2, p.B);
+            apply(CONVERT_TO_INDEX_SET, s3, p.C);
         } else {
             buildFromTable(D, p.F, p.k, generalTable(r, D, p.k), p.A);
             buildFromTable(D, p.F, p.k, safeTable(r, D, p.k), p.B);
+            buildFromTable(D, p.F, p.k, generalTable(r, D, p.k), p.C);
         }
     }
 }
@@ -200,49 +208,18 @@ std::string attempt(const std::function<void()>& fn, bool isolate) {
     return got;
 }
 
-// ---- steering -------------------------------------------------------------------------------------
-// Rows on which the unchanged library crashes (or may crash, depending on the operand values) instead
-// of raising an error: FINDINGS, see NOTES.md.  The decision of the constructors is still observed
-// through `build` on every such row; only the subsequent `apply` is withheld (`-> ok built <TAG>`), or,
-// for F1 where the constructor itself dereferences a null pointer, the whole row (`-> skipped F1…`).
-// `--probe 1` executes them in a forked child so that each finding stays reproducible.
-// The Lean model has the same classification (`Errors.crashTag`); the acceptor cross-checks every row.
-bool isMT(const Kind& k) { return k.el == edge_labeling::MULTI_TERMINAL; }
-bool isEVPk(const Kind& k) { return k.el == edge_labeling::EVPLUS; }
-bool isFully(const Kind& k) { return k.rr == reduction_rule::FULLY_REDUCED; }
-bool startsWith(const std::string& s, const char* p) { return s.rfind(p, 0) == 0; }
-
-// F1: REACHABLE_TRAD_NOFS hands a null image operation to the reachset_no_frontier constructor
-const char* ctorCrashTag(const std::string& op, const PF& a, const PF* b, const PF* c) {
-    (void) b;
-    if (!startsWith(op, "REACHABLE_TRAD_NOFS")) return nullptr;
-    const Kind& ka = a.k; const Kind& kc = c->k;
-    bool reachesImage = (isMT(kc) && kc.rt != range_type::REAL) || isEVPk(kc);
-    if (!reachesImage) return nullptr;
-    bool imageNull;
-    if (isMT(ka)) imageNull = kc.rt == range_type::REAL || (kc.rt == range_type::INTEGER && !isFully(kc));
-    else imageNull = !isEVPk(ka);
-    return imageNull ? "F1-nofs-null-image" : nullptr;
-}
-// F2..F6: the constructors accept the call; computing it crashes for some or all operand values
-const char* riskTag(const std::string& op, const PF& a, const PF* b, const PF* c) {
-    if (startsWith(op, "REACHABLE_")) {
-        if (a.tok != c->tok) return "F2-reach-foreign-result";
-        if (startsWith(op, "REACHABLE_SATUR") && b->k.rt != range_type::BOOLEAN) return "F4-satur-nonbool-relation";
-        return nullptr;
-    }
-    // F3 (VM/MV_MULTIPLY with a non-multi-terminal vector) is repaired in /repo (fix: 41a8b5e): rejected with TYPE_MISMATCH
-    if (op == "INTERSECTION" && a.k.rt != b->k.rt) return "F5-intersection-mixed-range";
-    if ((op == "PRE_IMAGE" || op == "POST_IMAGE") && isMT(c->k) && c->k.rt == range_type::INTEGER && a.tok != c->tok)
-        return "F6-image-distance-foreign-operand";
-    return nullptr;
-}
-
-struct Row { const OpDesc* od; PF* a; PF* b; PF* c; bool same; };
+// ---- no steering -----------------------------------------------------------------------------------
+// Earlier revisions withheld the `apply` (or the whole row) on six classes of rows on which the library
+// crashed instead of raising an error (findings F1..F6 of docs/NOTES_errors.md).  All six are repaired in
+// the library; every row is now decided AND, when accepted, computed in this process.  A crash of the
+// library therefore ends the run (the runner reports it); `--isolate 1` localises the fatal row.
+// doms: "1" all forests in one domain; "a" only the first operand lives in another domain (second operand and
+// result share one); "0" any other split
+struct Row { const OpDesc* od; PF* a; PF* b; PF* c; const char* doms; };
 
 std::string rowHead(const Row& w) {
     return std::string("pre ") + w.od->name + " " + w.a->tok + " " + (w.b ? w.b->tok : std::string("-")) + " " +
-           (w.c ? w.c->tok : std::string("-")) + " " + (w.same ? "1" : "0") + " -> ";
+           (w.c ? w.c->tok : std::string("-")) + " " + w.doms + " -> ";
 }
 
 // the constructors' decision, without computing anything
@@ -263,7 +240,9 @@ void execRow(const Row& w) {
     switch (od.ar) {
         case BIN: {
             dd_edge res(w.c->F);
-            apply(od.bf(), w.a->A, w.b->B, res);
+            std::string op = od.name;
+            bool setop = op == "UNION" || op == "INTERSECTION" || op == "DIFFERENCE";
+            apply(od.bf(), w.a->A, setop ? w.b->C : w.b->B, res);
             break;
         }
         case UN_DD: {
@@ -276,29 +255,16 @@ void execRow(const Row& w) {
     }
 }
 
-void runRow(const Row& w, bool probe) {
+void runRow(const Row& w) {
     std::string line = rowHead(w);
-    std::string op = w.od->name;
-    if (const char* tag = ctorCrashTag(op, *w.a, w.b, w.c)) {
-        if (!probe) { emits(line + "skipped " + tag); STATS.hit("pre.skipped"); return; }
-        std::string out = attempt([&] { execRow(w); }, true);
-        emits(line + out + " " + tag);
-        STATS.hit(startsWith(out, "crash") ? "probe.crash" : "probe.nocrash");
-        return;
-    }
+    // the constructors' decision first (nothing is computed) ...
     std::string out = attempt([&] { buildRow(w); }, false);
     if (out != "ok") {
         emits(line + out);
         STATS.hit("pre." + out.substr(4));
         return;
     }
-    if (const char* tag = riskTag(op, *w.a, w.b, w.c)) {
-        if (!probe) { emits(line + "ok built " + tag); STATS.hit("pre.ok.built"); return; }
-        std::string o2 = attempt([&] { execRow(w); }, true);
-        emits(line + o2 + " probed " + tag);
-        STATS.hit(startsWith(o2, "crash") ? "probe.crash" : "probe.nocrash");
-        return;
-    }
+    // ... then every accepted row is computed
     out = attempt([&] { execRow(w); }, false);
     emits(line + out + (out == "ok" ? " applied" : ""));
     STATS.hit(out == "ok" ? "pre.ok.applied" : "pre." + out.substr(4));
@@ -306,7 +272,7 @@ void runRow(const Row& w, bool probe) {
 
 // development aid (--isolate 1): run the rows in forked children; a child that dies is replaced by a new
 // one that continues after the fatal row, which is reported as `-> crash signalN`
-void runRowsIsolated(const std::vector<Row>& rows, bool probe) {
+void runRowsIsolated(const std::vector<Row>& rows) {
     size_t s = 0;
     while (s < rows.size()) {
         fflush(stdout);
@@ -320,7 +286,7 @@ void runRowsIsolated(const std::vector<Row>& rows, bool probe) {
                 ssize_t w = write(fd[1], &idx, sizeof idx);
                 (void) w;
                 alarm(30);
-                runRow(rows[i], probe);
+                runRow(rows[i]);
                 fflush(stdout);
             }
             _exit(0);
@@ -342,7 +308,6 @@ void runRowsIsolated(const std::vector<Row>& rows, bool probe) {
 void tableCase(const Args& A, long c) {
     const OpDesc& od = OPS[c];
     Rng r(Rng::mix(A.seed, uint64_t(c)));
-    bool probe = A.getl("probe", 0) != 0;
     Dom D1, D2;
     D1.sizes = {2, 3};
     D2.sizes = {3, 2};
@@ -363,7 +328,7 @@ void tableCase(const Args& A, long c) {
             for (size_t i = 0; i < n; i++)
                 for (size_t j = 0; j < n; j++)
                     for (size_t k = 0; k < n; k++) {
-                        rows.push_back({&od, &P1[i], &P1[j], &P1[k], true});
+                        rows.push_back({&od, &P1[i], &P1[j], &P1[k], "1"});
                         unsigned lo = 1, hi = 6;
                         if (!A.thorough()) lo = hi = 1 + r.below(6);
                         for (unsigned pat = lo; pat <= hi; pat++) {
@@ -371,30 +336,31 @@ void tableCase(const Args& A, long c) {
                             PF& a = (pat & 1) ? P2[i] : P1[i];
                             PF& b = (pat & 2) ? P2[j] : P1[j];
                             PF& cc = (pat & 4) ? P2[k] : P1[k];
-                            rows.push_back({&od, &a, &b, &cc, false});
+                            // pat 1 and 6: the second operand and the result share a domain
+                            rows.push_back({&od, &a, &b, &cc, (pat == 1 || pat == 6) ? "a" : "0"});
                         }
                     }
             break;
         case UN_DD:
             for (size_t i = 0; i < n; i++)
                 for (size_t k = 0; k < n; k++) {
-                    rows.push_back({&od, &P1[i], nullptr, &P1[k], true});
-                    rows.push_back({&od, &P2[i], nullptr, &P1[k], false});
-                    rows.push_back({&od, &P1[i], nullptr, &P2[k], false});
+                    rows.push_back({&od, &P1[i], nullptr, &P1[k], "1"});
+                    rows.push_back({&od, &P2[i], nullptr, &P1[k], "0"});
+                    rows.push_back({&od, &P1[i], nullptr, &P2[k], "0"});
                 }
             break;
         default:
-            for (size_t i = 0; i < n; i++) rows.push_back({&od, &P1[i], nullptr, nullptr, true});
+            for (size_t i = 0; i < n; i++) rows.push_back({&od, &P1[i], nullptr, nullptr, "1"});
             break;
     }
     long only = A.getl("row", -1);   // development aid: a single row of the case
-    if (only >= 0) { if (size_t(only) < rows.size()) { emit("note row %ld", only); fflush(stdout); runRow(rows[size_t(only)], true); } }
-    else if (ISOLATE) runRowsIsolated(rows, probe);
-    else for (auto& w : rows) runRow(w, probe);
+    if (only >= 0) { if (size_t(only) < rows.size()) { emit("note row %ld", only); fflush(stdout); runRow(rows[size_t(only)]); } }
+    else if (ISOLATE) runRowsIsolated(rows);
+    else for (auto& w : rows) runRow(w);
     endCase();
     // release edges before the forests
     for (auto* P : {&P1, &P2}) {
-        for (auto& p : *P) { p.A.detach(); p.B.detach(); }
+        for (auto& p : *P) { p.A.detach(); p.B.detach(); p.C.detach(); }
         for (auto& p : *P) forest::destroy(p.F);
     }
     D1.destroy();
@@ -595,7 +561,12 @@ void deepCase(const Args& A, long c, Rng& r) {
     tb2 = tb;
     const long BIG = (1L << 30) - 1;
     switch (what) {
-        case 0: case 1: ta[at] = nonzeroFinite(r, base); tb[at] = base.rt == range_type::REAL ? Val::real(0.0) : Val::integer(0); break;
+        case 0: case 1:
+            ta[at] = nonzeroFinite(r, base); tb[at] = base.rt == range_type::REAL ? Val::real(0.0) : Val::integer(0);
+            // EV+: half of the time the dividend is +infinity exactly where the divisor is zero (inf / 0 and
+            // inf % 0 are errors too: the zero-divisor test comes before the infinite-dividend case)
+            if (base.el == edge_labeling::EVPLUS && r.chance(1, 2)) { ta[at] = Val::inf(); STATS.hit(std::string("deep.") + whatn[what] + ".inf-dividend"); }
+            break;
         case 2: ta[at] = Val::integer(r.range(0, 9)); tb[at] = Val::inf(); break;
         case 3: ta[at] = Val::integer(BIG - r.range(0, 2)); tb[at] = Val::integer(3 + r.range(0, 5)); break;
         default: ta[at] = Val::integer(1L << 20); tb[at] = Val::integer(1L << 10); break;
@@ -879,11 +850,15 @@ void misuseCase(const Args& A, long c, Rng& r) {
             }
         }
     }
-    // FINDING F8 (only with --probe 1, in a forked child): an operation object applied to a result edge
-    // that is attached to another forest than the one the operation was built for
-    if (A.getl("probe", 0) != 0) {
+    // an operation object applied to a result edge (or operand) that is attached to another forest than the
+    // one the operation was built for (former finding F8: no test, SIGSEGV; documented: FOREST_MISMATCH).
+    // Always in a forked child: a library that does not refuse the call leaves a foreign node handle in the
+    // edge, which must not poison this process; the child's fate is the observation.  (One misuse case in
+    // three: a fork of this process costs 10-100 ms, more under ASan.)
+    if (r.chance(1, 3)) {
+        bool boolean = base.rt == range_type::BOOLEAN;
         std::string out = attempt([&] {
-            binary_operation* bop = base.rt == range_type::BOOLEAN ? build(UNION, F, F, G) : build(PLUS, F, F, G);
+            binary_operation* bop = boolean ? build(UNION, F, F, G) : build(PLUS, F, F, G);
             forest* X = makeForest(S.D.d, base, Pol());     // same kind, but not the operation's result forest
             dd_edge res(X);
             bop->compute(H1->e, H1->e, res);
@@ -893,6 +868,25 @@ void misuseCase(const Args& A, long c, Rng& r) {
             if (t != want) throw error(error::MISCELLANEOUS, __FILE__, __LINE__);
         }, true);
         emit("misuse compute-foreign-result %s", out.c_str());
+        out = attempt([&] {
+            unary_operation* uop = build(COPY, F, G);
+            forest* X = makeForest(S.D.d, base, Pol());
+            dd_edge res(X);
+            uop->compute(H1->e, res);
+            std::vector<Val> t = tableOf(S.D, res);
+            std::vector<Val> want = tableOf(S.D, H1->e);
+            if (t != want) throw error(error::MISCELLANEOUS, __FILE__, __LINE__);
+        }, true);
+        emit("misuse compute-foreign-unary-result %s", out.c_str());
+        out = attempt([&] {
+            unary_operation* uop = build(COPY, F, G);
+            forest* X = makeForest(S.D.d, base, Pol());     // same kind, but not the operation's operand forest
+            dd_edge opnd(X), res(G);
+            buildFromTable(S.D, X, base, t1, opnd);
+            uop->compute(opnd, res);
+            if (tableOf(S.D, res) != tableOf(S.D, opnd)) throw error(error::MISCELLANEOUS, __FILE__, __LINE__);
+        }, true);
+        emit("misuse compute-foreign-unary-operand %s", out.c_str());
     }
     S.tables(true);
     S.audits();
@@ -924,15 +918,53 @@ void misuseCase(const Args& A, long c, Rng& r) {
     S.destroy();
 }
 
+// Case 99: reproducers of KNOWN FINDINGS that are still in the library, one forked child each.  The record is
+// an ordinary `misuse` record: while the defect is present the acceptor reports ONE `DIFF ... kind=error-code
+// misuse=<scenario> ...` line per run (matched by an entry of known_findings.jsonl); once the library raises the
+// documented error the line disappears by itself.  Nothing is withheld from the other cases.
+//
+// F8b  binary_operation::compute(a, b, res) does not test that the OPERAND edges belong to the operation's
+//      operand forests (the result edge is tested since the repair of F8): a node handle of a foreign forest
+//      is read in the operation's forest -> wrong function or SIGSEGV.  Documented: FOREST_MISMATCH.
+void knownFindingProbes(const Args& A) {
+    (void) A;
+    beginCase(99);
+    Dom D;
+    D.sizes = {2, 3, 2};
+    D.create();
+    emits(D.str());
+    emit("note known-finding probes");
+    Kind k = mk(false, range_type::INTEGER, edge_labeling::MULTI_TERMINAL, reduction_rule::FULLY_REDUCED);
+    std::string out = attempt([&] {
+        forest* F = makeForest(D.d, k, Pol());
+        forest* X = makeForest(D.d, k, Pol());      // same kind, but not the operation's operand forest
+        size_t n = D.card(false);
+        std::vector<Val> tf(n), tx(n);
+        for (size_t i = 0; i < n; i++) { tf[i] = Val::integer(long(i % 2)); tx[i] = Val::integer(long(i + 1)); }
+        dd_edge a(F), b(X), res(F);
+        buildFromTable(D, F, k, tf, a);             // one node in F
+        buildFromTable(D, X, k, tx, b);             // many nodes in X
+        binary_operation* bop = build(PLUS, F, F, F);
+        bop->compute(a, b, res);                    // b's node handle is read in F
+        std::vector<Val> got = tableOf(D, res);
+        for (size_t i = 0; i < n; i++)
+            if (got[i].n != tf[i].n + tx[i].n) throw error(error::MISCELLANEOUS, __FILE__, __LINE__);
+    }, true);
+    emit("misuse compute-foreign-operand %s", out.c_str());
+    STATS.hit(out == "err FOREST_MISMATCH" ? "finding.F8b.repaired" : "finding.F8b.present");
+    endCase();
+    D.destroy();
+}
+
 int run(const Args& A) {
     libInit();
     ISOLATE = A.getl("isolate", 0) != 0;
-    PROBE = A.getl("probe", 0) != 0;
     for (long c = 0; c < NOPS; c++) {
         if (!A.selected(c)) continue;
         tableCase(A, c);
     }
-    long nb = A.cases > 0 ? A.cases : (A.thorough() ? 900 : 150);
+    if (A.selected(99)) knownFindingProbes(A);
+    long nb = A.cases > 0 ? A.cases : (A.thorough() ? 900 : 300);
     for (long c = 100; c < 100 + nb; c++) {
         if (!A.selected(c)) continue;
         Rng r(Rng::mix(A.seed, uint64_t(c)));
